@@ -5,3 +5,12 @@ import gen_tables, gen_funcs, gen_consts
 def generate_all(snap):
     out = {"tables": gen_tables.generate(snap), "prng": gen_funcs.gen_prng(snap), "blocking": gen_funcs.gen_blocking(snap), "consts": gen_consts.generate(snap)}
     return out
+
+
+if __name__ == "__main__":
+    import vlib
+    s = vlib.Snapshot()
+    try:
+        print(generate_all(s))
+    finally:
+        s.cleanup()
